@@ -64,7 +64,12 @@ EXPLANATION = (
     "sink Encode/Save/SerializableAst is followed through local definitions, "
     "inlined temporaries and inlined helpers: `Encode(SerializeAst(..))` and "
     "`out = SerializeAst(..); Encode(out)` are the same, a rebinding of the "
-    "temporary on some path is not); R12.5 each decoder is typed with the "
+    "temporary on some path is not; a dependency list read as a field "
+    "`rec.f` / `rec[i]` of a local built - after helper inlining - as a "
+    "NamedTuple / plain @dataclass of the module or a tuple display is the "
+    "constructor argument stored in that field, any other record shape, a "
+    "record that escapes or a field changed in place is an analysis error); "
+    "R12.5 each decoder is typed with the "
     "structure its loader promises and the file loader - found by its role: "
     "the module-level function whose call LoadAst and LoadBuiltins return "
     "and which receives a module-level msgspec Decoder; its name and "
@@ -118,6 +123,10 @@ ASSUMPTIONS = [
     "reader models (generated eq/hash)",
     "R12.3/R12.4 inlining: attribute reads and subscripts have no side "
     "effects; a module-level helper name denotes the def of that name",
+    "R4.4/R12.4 records: a typing.NamedTuple subclass / @dataclass without "
+    "__new__/__init__/__post_init__/field() specifiers stores each "
+    "constructor argument unchanged in the field of the same position or "
+    "keyword; typing.NamedTuple and dataclasses.dataclass are not shadowed",
 ]
 
 EXPLANATION += (
@@ -1974,3 +1983,7 @@ VARIANTS = [
           "    elif self.type == \"complex\" or self.type == \"float\":\n"
           "      raise ParseError(f\"Invalid type `{self.type}` in Literal[{self.value}].\")\n")]},
 ]
+
+# dependency lists taken from the fields of a record returned by a helper
+from rules import _record_fields as _RF   # noqa: E402
+VARIANTS += _RF.deps_record_variants("R12.4")
